@@ -203,18 +203,37 @@ def iterable_param_reuse(ctx, rule: str, modules: list[str], only=None) -> int:
     n = 0
     for mn in modules:
         m = prog.module(mn)
+        from .canon import known_defs
+        known = known_defs()
+        owners = {}
+        for c in m.classes.values():
+            for f_ in c.methods.values():
+                owners[id(f_)] = c
         for fn in [x for x in ast.walk(m.tree) if isinstance(x, ast.FunctionDef)]:
             if only is not None and not only(mn, "", fn.name):
                 continue
+            cls_ = owners.get(id(fn))
+            # a private helper the tables do not know is judged where it is called: canonical bodies see through it with its arguments
+            if fn.name.startswith("_") and not fn.name.startswith("__"):
+                if cls_ is not None and ctx.canon.unknown_helper(cls_, fn.name):
+                    continue
+                if cls_ is None and fn.name in m.functions and m.functions[fn.name] is fn and f"fn:{fn.name}" not in known:
+                    continue
+            body_fn = fn
+            if cls_ is not None or (fn.name in m.functions and m.functions[fn.name] is fn):
+                try:
+                    body_fn = ctx.canon.fn(fn, m, cls_)      # temporaries substituted, unknown helpers inlined: mentions are the evaluations
+                except Exception:
+                    body_fn = fn
             for a in fn.args.args + fn.args.kwonlyargs:
                 if a.annotation is None or u(a.annotation).split("[")[0].split(".")[-1] not in ITER_ANN:
                     continue
-                uses = [x for x in ast.walk(fn) if isinstance(x, ast.Name) and x.id == a.arg and isinstance(x.ctx, ast.Load)]
-                rebinding = [s for s in ast.walk(fn) if isinstance(s, ast.Assign) and any(isinstance(t, ast.Name) and t.id == a.arg for t in s.targets)]
+                uses = [x for x in ast.walk(body_fn) if isinstance(x, ast.Name) and x.id == a.arg and isinstance(x.ctx, ast.Load)]
+                rebinding = [s for s in ast.walk(body_fn) if isinstance(s, ast.Assign) and any(isinstance(t, ast.Name) and t.id == a.arg for t in s.targets)]
                 n += 1
                 if len(uses) > 1 and not rebinding:
-                    ctx.fail(rule, f"{mn}.{fn.name}: iterable parameter `{a.arg}` consumed {len(uses)} times", m.path, uses[1].lineno,
-                             f"`{a.arg}` is annotated {u(a.annotation)} and is consumed at lines {[x.lineno for x in uses]}: for a generator / iterator argument "
+                    ctx.fail(rule, f"{mn}.{fn.name}: iterable parameter `{a.arg}` consumed {len(uses)} times", m.path, getattr(uses[1], "lineno", fn.lineno),
+                             f"`{a.arg}` is annotated {u(a.annotation)} and is consumed at lines {[getattr(x, 'lineno', 0) for x in uses]}: for a generator / iterator argument "
                              "the second consumer sees it exhausted, so the two results disagree", fn)
                 else:
                     ctx.ok(rule, f"{mn}.{fn.name}: iterable parameter `{a.arg}`", "consumed once")
